@@ -12,6 +12,7 @@
 #include <array>
 #include <list>
 #include <map>
+#include <memory>
 #include <set>
 #include <vector>
 
@@ -91,6 +92,15 @@ static void bump(std::reference_wrapper<RE> e)
     e.get().bump();
 }
 
+static void bump_by(RE& e, int d)
+{
+    e.v += d;
+}
+static void bump_by(std::pair<const int, RE>& e, int d)
+{
+    e.second.v += d;
+}
+
 struct Out
 {
     J visited = J::arr();
@@ -167,204 +177,290 @@ static J contents(const C& c)
     return a;
 }
 
+// ---- how the range object reaches the loop ----------------------------------------------------------------------
+// 0 direct (what a range-for does: auto&& r = expr), 1 copy-constructed, 2 move-constructed, 3 assigned over another
+// range of the same type; in 1-3 the original range object is destroyed before the loop runs.
+template <typename Make, typename MakeOther, typename Body>
+static void with_range(int handoff, Make make, MakeOther make_other, Body body)
+{
+    using R = decltype(make());
+    if (handoff == 0)
+    {
+        auto&& r = make();
+        body(r);
+    }
+    else if (handoff == 1)
+    {
+        auto p = std::make_unique<R>(make());
+        R r2(*p);
+        p.reset();
+        body(r2);
+    }
+    else if (handoff == 2)
+    {
+        auto p = std::make_unique<R>(make());
+        R r2(std::move(*p));
+        p.reset();
+        body(r2);
+    }
+    else
+    {
+        auto p = std::make_unique<R>(make());
+        R r2(make_other());
+        r2 = *p;
+        p.reset();
+        body(r2);
+    }
+}
+
+template <typename C>
+static void scramble(C& c)
+{
+    for (auto& e : c)
+        bump_by(e, 900);
+}
+
 // ---- the loops -------------------------------------------------------------------------------------------------------
 template <typename K>
-static J en_lv(int n, bool write)
+static J en_lv(int n, bool write, int h)
 {
     auto c = K::make(n);
+    auto other = K::make(n);
+    scramble(other);
     Out o;
-    for (auto e : nitro::lang::enumerate(c))
-    {
-        o.push(e.index(), val(e.value()));
-        if (write)
-            bump(e.value());
-    }
+    with_range(
+        h, [&] { return nitro::lang::enumerate(c); }, [&] { return nitro::lang::enumerate(other); },
+        [&](auto& r) {
+            for (auto e : r)
+            {
+                o.push(e.index(), val(e.value()));
+                if (write)
+                    bump(e.value());
+            }
+        });
     return J::obj().set("visited", o.visited).set("after", contents(c));
 }
 template <typename K>
-static J en_const(int n, bool)
+static J en_const(int n, bool, int h)
 {
     const auto c = K::make(n);
+    auto other0 = K::make(n);
+    scramble(other0);
+    const auto other = other0;
     Out o;
-    for (auto e : nitro::lang::enumerate(c))
-        o.push(e.index(), val(e.value()));
+    with_range(
+        h, [&] { return nitro::lang::enumerate(c); }, [&] { return nitro::lang::enumerate(other); },
+        [&](auto& r) {
+            for (auto e : r)
+                o.push(e.index(), val(e.value()));
+        });
     return J::obj().set("visited", o.visited).set("after", contents(c));
 }
 template <typename K>
-static J en_rv(int n, bool)
+static J en_rv(int n, bool, int h)
 {
     Out o;
-    for (auto e : nitro::lang::enumerate(K::make(n)))
-        o.push(e.index(), val(e.value()));
+    with_range(
+        h, [&] { return nitro::lang::enumerate(K::make(n)); },
+        [&] {
+            auto t = K::make(n);
+            scramble(t);
+            return nitro::lang::enumerate(std::move(t));
+        },
+        [&](auto& r) {
+            for (auto e : r)
+                o.push(e.index(), val(e.value()));
+        });
     J after = J::arr();
     for (int i = 1; i <= n; i++)
         after.push(J(10 * i));
     return J::obj().set("visited", o.visited).set("after", after);
 }
 template <typename K>
-static J re_lv(int n, bool write)
+static J re_lv(int n, bool write, int h)
 {
     auto c = K::make(n);
+    auto other = K::make(n);
+    scramble(other);
     Out o;
-    for (auto& x : nitro::lang::reverse(c))
-    {
-        o.push(0, val(x));
-        if (write)
-            bump(x);
-    }
+    with_range(
+        h, [&] { return nitro::lang::reverse(c); }, [&] { return nitro::lang::reverse(other); },
+        [&](auto& r) {
+            for (auto& x : r)
+            {
+                o.push(0, val(x));
+                if (write)
+                    bump(x);
+            }
+        });
     return J::obj().set("visited", o.visited).set("after", contents(c));
 }
 template <typename K>
-static J re_const(int n, bool)
+static J re_const(int n, bool, int h)
 {
     const auto c = K::make(n);
+    auto other0 = K::make(n);
+    scramble(other0);
+    const auto other = other0;
     Out o;
-    for (const auto& x : nitro::lang::reverse(c))
-        o.push(0, val(x));
+    with_range(
+        h, [&] { return nitro::lang::reverse(c); }, [&] { return nitro::lang::reverse(other); },
+        [&](auto& r) {
+            for (const auto& x : r)
+                o.push(0, val(x));
+        });
     return J::obj().set("visited", o.visited).set("after", contents(c));
 }
 template <typename K>
-static J re_rv(int n, bool)
+static J re_rv(int n, bool, int h)
 {
     Out o;
-    for (const auto& x : nitro::lang::reverse(K::make(n)))
-        o.push(0, val(x));
+    with_range(
+        h, [&] { return nitro::lang::reverse(K::make(n)); },
+        [&] {
+            auto t = K::make(n);
+            scramble(t);
+            return nitro::lang::reverse(std::move(t));
+        },
+        [&](auto& r) {
+            for (const auto& x : r)
+                o.push(0, val(x));
+        });
     J after = J::arr();
     for (int i = 1; i <= n; i++)
         after.push(J(10 * i));
     return J::obj().set("visited", o.visited).set("after", after);
 }
 
-#define BY_N(FN, n, w)                                                                                                 \
-    ((n) == 0 ? FN<ArrK<0>>(n, w) : (n) == 1 ? FN<ArrK<1>>(n, w) : (n) == 2 ? FN<ArrK<2>>(n, w) : (n) == 3 ? FN<ArrK<3>>(n, w) : FN<ArrK<4>>(n, w))
+#define BY_N(FN, n, w, h)                                                                                              \
+    ((n) == 0 ? FN<ArrK<0>>(n, w, h) : (n) == 1 ? FN<ArrK<1>>(n, w, h) : (n) == 2 ? FN<ArrK<2>>(n, w, h) : (n) == 3 ? FN<ArrK<3>>(n, w, h) : FN<ArrK<4>>(n, w, h))
 
 // built-in arrays
 template <std::size_t N>
-static J carr_en_lv(bool write)
+static void fill(RE (&c)[N], int base)
 {
-    RE c[N];
     for (std::size_t i = 0; i < N; i++)
-        c[i] = RE(10 * (static_cast<int>(i) + 1));
-    Out o;
-    for (auto e : nitro::lang::enumerate(c))
-    {
-        o.push(e.index(), val(e.value()));
-        if (write)
-            bump(e.value());
-    }
+        c[i] = RE(base + 10 * (static_cast<int>(i) + 1));
+}
+template <std::size_t N>
+static J after_of(const RE (&c)[N])
+{
     J after = J::arr();
     for (std::size_t i = 0; i < N; i++)
         after.push(J(c[i].get()));
-    return J::obj().set("visited", o.visited).set("after", after);
+    return after;
 }
 template <std::size_t N>
-static J carr_en_const(bool)
+static J carr_en_lv(bool write, int h)
 {
-    RE c0[N];
-    for (std::size_t i = 0; i < N; i++)
-        c0[i] = RE(10 * (static_cast<int>(i) + 1));
+    RE c[N], other[N];
+    fill(c, 0);
+    fill(other, 900);
+    Out o;
+    with_range(
+        h, [&] { return nitro::lang::enumerate(c); }, [&] { return nitro::lang::enumerate(other); },
+        [&](auto& r) {
+            for (auto e : r)
+            {
+                o.push(e.index(), val(e.value()));
+                if (write)
+                    bump(e.value());
+            }
+        });
+    return J::obj().set("visited", o.visited).set("after", after_of(c));
+}
+template <std::size_t N>
+static J carr_en_const(bool, int h)
+{
+    RE c0[N], other0[N];
+    fill(c0, 0);
+    fill(other0, 900);
     const RE(&c)[N] = c0;
+    const RE(&other)[N] = other0;
     Out o;
-    for (auto e : nitro::lang::enumerate(c))
-        o.push(e.index(), val(e.value()));
-    J after = J::arr();
-    for (std::size_t i = 0; i < N; i++)
-        after.push(J(c[i].get()));
-    return J::obj().set("visited", o.visited).set("after", after);
+    with_range(
+        h, [&] { return nitro::lang::enumerate(c); }, [&] { return nitro::lang::enumerate(other); },
+        [&](auto& r) {
+            for (auto e : r)
+                o.push(e.index(), val(e.value()));
+        });
+    return J::obj().set("visited", o.visited).set("after", after_of(c0));
 }
 template <std::size_t N>
-static J carr_re_lv(bool write)
+static J carr_re_lv(bool write, int h)
 {
-    RE c[N];
-    for (std::size_t i = 0; i < N; i++)
-        c[i] = RE(10 * (static_cast<int>(i) + 1));
+    RE c[N], other[N];
+    fill(c, 0);
+    fill(other, 900);
     Out o;
-    for (auto x : nitro::lang::reverse(c))
-    {
-        o.push(0, val(x));
-        if (write)
-            bump(x);
-    }
-    J after = J::arr();
-    for (std::size_t i = 0; i < N; i++)
-        after.push(J(c[i].get()));
-    return J::obj().set("visited", o.visited).set("after", after);
+    with_range(
+        h, [&] { return nitro::lang::reverse(c); }, [&] { return nitro::lang::reverse(other); },
+        [&](auto& r) {
+            for (auto x : r)
+            {
+                o.push(0, val(x));
+                if (write)
+                    bump(x);
+            }
+        });
+    return J::obj().set("visited", o.visited).set("after", after_of(c));
 }
 template <std::size_t N>
-static J carr_re_const(bool)
+static J carr_re_const(bool, int h)
 {
-    RE c0[N];
-    for (std::size_t i = 0; i < N; i++)
-        c0[i] = RE(10 * (static_cast<int>(i) + 1));
+    RE c0[N], other0[N];
+    fill(c0, 0);
+    fill(other0, 900);
     const RE(&c)[N] = c0;
+    const RE(&other)[N] = other0;
     Out o;
-    for (auto x : nitro::lang::reverse(c))
-        o.push(0, val(x));
-    J after = J::arr();
-    for (std::size_t i = 0; i < N; i++)
-        after.push(J(c[i].get()));
-    return J::obj().set("visited", o.visited).set("after", after);
+    with_range(
+        h, [&] { return nitro::lang::reverse(c); }, [&] { return nitro::lang::reverse(other); },
+        [&](auto& r) {
+            for (auto x : r)
+                o.push(0, val(x));
+        });
+    return J::obj().set("visited", o.visited).set("after", after_of(c0));
 }
-#define CARR_BY_N(FN, n, w) ((n) == 1 ? FN<1>(w) : (n) == 2 ? FN<2>(w) : (n) == 3 ? FN<3>(w) : FN<4>(w))
+#define CARR_BY_N(FN, n, w, h) ((n) == 1 ? FN<1>(w, h) : (n) == 2 ? FN<2>(w, h) : (n) == 3 ? FN<3>(w, h) : FN<4>(w, h))
 
 // initializer lists (always temporaries)
-static J ilist_en(int n)
+#define ILIST_CASES(ADAPT, LOOPVAR, PUSH)                                                                              \
+    auto body = [&](auto& r) {                                                                                         \
+        for (LOOPVAR : r)                                                                                              \
+            PUSH;                                                                                                      \
+    };                                                                                                                 \
+    switch (n)                                                                                                         \
+    {                                                                                                                  \
+    case 0:                                                                                                            \
+        with_range(h, [&] { return ADAPT(std::initializer_list<RE>{}); }, [&] { return ADAPT(std::initializer_list<RE>{}); }, body); \
+        break;                                                                                                         \
+    case 1:                                                                                                            \
+        with_range(h, [&] { return ADAPT({ RE(10) }); }, [&] { return ADAPT({ RE(910) }); }, body);                    \
+        break;                                                                                                         \
+    case 2:                                                                                                            \
+        with_range(h, [&] { return ADAPT({ RE(10), RE(20) }); }, [&] { return ADAPT({ RE(910), RE(920) }); }, body);   \
+        break;                                                                                                         \
+    case 3:                                                                                                            \
+        with_range(h, [&] { return ADAPT({ RE(10), RE(20), RE(30) }); }, [&] { return ADAPT({ RE(910), RE(920), RE(930) }); }, body); \
+        break;                                                                                                         \
+    default:                                                                                                           \
+        with_range(h, [&] { return ADAPT({ RE(10), RE(20), RE(30), RE(40) }); }, [&] { return ADAPT({ RE(910), RE(920), RE(930), RE(940) }); }, body); \
+        break;                                                                                                         \
+    }
+static J ilist_en(int n, int h)
 {
     Out o;
-    switch (n)
-    {
-    case 0:
-        for (auto e : nitro::lang::enumerate(std::initializer_list<RE>{}))
-            o.push(e.index(), val(e.value()));
-        break;
-    case 1:
-        for (auto e : nitro::lang::enumerate({ RE(10) }))
-            o.push(e.index(), val(e.value()));
-        break;
-    case 2:
-        for (auto e : nitro::lang::enumerate({ RE(10), RE(20) }))
-            o.push(e.index(), val(e.value()));
-        break;
-    case 3:
-        for (auto e : nitro::lang::enumerate({ RE(10), RE(20), RE(30) }))
-            o.push(e.index(), val(e.value()));
-        break;
-    default:
-        for (auto e : nitro::lang::enumerate({ RE(10), RE(20), RE(30), RE(40) }))
-            o.push(e.index(), val(e.value()));
-        break;
-    }
+    ILIST_CASES(nitro::lang::enumerate, auto e, o.push(e.index(), val(e.value())))
     J after = J::arr();
     for (int i = 1; i <= n; i++)
         after.push(J(10 * i));
     return J::obj().set("visited", o.visited).set("after", after);
 }
-static J ilist_re(int n)
+static J ilist_re(int n, int h)
 {
     Out o;
-    switch (n)
-    {
-    case 0:
-        for (const auto& x : nitro::lang::reverse(std::initializer_list<RE>{}))
-            o.push(0, val(x));
-        break;
-    case 1:
-        for (const auto& x : nitro::lang::reverse({ RE(10) }))
-            o.push(0, val(x));
-        break;
-    case 2:
-        for (const auto& x : nitro::lang::reverse({ RE(10), RE(20) }))
-            o.push(0, val(x));
-        break;
-    case 3:
-        for (const auto& x : nitro::lang::reverse({ RE(10), RE(20), RE(30) }))
-            o.push(0, val(x));
-        break;
-    default:
-        for (const auto& x : nitro::lang::reverse({ RE(10), RE(20), RE(30), RE(40) }))
-            o.push(0, val(x));
-        break;
-    }
+    ILIST_CASES(nitro::lang::reverse, const auto& x, o.push(0, val(x)))
     J after = J::arr();
     for (int i = 1; i <= n; i++)
         after.push(J(10 * i));
@@ -373,59 +469,66 @@ static J ilist_re(int n)
 
 #define WANT(id) (defined(HAVE_##id) || defined(ONLY_##id))
 
-static J dispatch(const std::string& id, int n, bool w)
+static J dispatch(const std::string& id, int n, bool w, int h)
 {
     (void)n;
     (void)w;
+    (void)h;
 #define STD_KIND(name, K)                                                                                              \
     if (id == #name "_lv_en")                                                                                          \
-        return IF_##name##_lv_en(en_lv<K>(n, w));                                                                      \
+        return IF_##name##_lv_en(en_lv<K>(n, w, h));                                                                      \
     if (id == #name "_const_en")                                                                                       \
-        return IF_##name##_const_en(en_const<K>(n, w));                                                                \
+        return IF_##name##_const_en(en_const<K>(n, w, h));                                                                \
     if (id == #name "_rv_en")                                                                                          \
-        return IF_##name##_rv_en(en_rv<K>(n, w));                                                                      \
+        return IF_##name##_rv_en(en_rv<K>(n, w, h));                                                                      \
     if (id == #name "_lv_re")                                                                                          \
-        return IF_##name##_lv_re(re_lv<K>(n, w));                                                                      \
+        return IF_##name##_lv_re(re_lv<K>(n, w, h));                                                                      \
     if (id == #name "_const_re")                                                                                       \
-        return IF_##name##_const_re(re_const<K>(n, w));                                                                \
+        return IF_##name##_const_re(re_const<K>(n, w, h));                                                                \
     if (id == #name "_rv_re")                                                                                          \
-        return IF_##name##_rv_re(re_rv<K>(n, w));
+        return IF_##name##_rv_re(re_rv<K>(n, w, h));
 #include "gen_ranges_guards.inc"
     STD_KIND(vec, VecK)
     STD_KIND(list, ListK)
     STD_KIND(map, MapK)
     STD_KIND(fv, FvK)
     if (id == "arr_lv_en")
-        return IF_arr_lv_en(BY_N(en_lv, n, w));
+        return IF_arr_lv_en(BY_N(en_lv, n, w, h));
     if (id == "arr_const_en")
-        return IF_arr_const_en(BY_N(en_const, n, w));
+        return IF_arr_const_en(BY_N(en_const, n, w, h));
     if (id == "arr_rv_en")
-        return IF_arr_rv_en(BY_N(en_rv, n, w));
+        return IF_arr_rv_en(BY_N(en_rv, n, w, h));
     if (id == "arr_lv_re")
-        return IF_arr_lv_re(BY_N(re_lv, n, w));
+        return IF_arr_lv_re(BY_N(re_lv, n, w, h));
     if (id == "arr_const_re")
-        return IF_arr_const_re(BY_N(re_const, n, w));
+        return IF_arr_const_re(BY_N(re_const, n, w, h));
     if (id == "arr_rv_re")
-        return IF_arr_rv_re(BY_N(re_rv, n, w));
+        return IF_arr_rv_re(BY_N(re_rv, n, w, h));
     if (id == "carr_lv_en")
-        return IF_carr_lv_en(CARR_BY_N(carr_en_lv, n, w));
+        return IF_carr_lv_en(CARR_BY_N(carr_en_lv, n, w, h));
     if (id == "carr_const_en")
-        return IF_carr_const_en(CARR_BY_N(carr_en_const, n, w));
+        return IF_carr_const_en(CARR_BY_N(carr_en_const, n, w, h));
     if (id == "carr_lv_re")
-        return IF_carr_lv_re(CARR_BY_N(carr_re_lv, n, w));
+        return IF_carr_lv_re(CARR_BY_N(carr_re_lv, n, w, h));
     if (id == "carr_const_re")
-        return IF_carr_const_re(CARR_BY_N(carr_re_const, n, w));
+        return IF_carr_const_re(CARR_BY_N(carr_re_const, n, w, h));
     if (id == "ilist_rv_en")
-        return IF_ilist_rv_en(ilist_en(n));
+        return IF_ilist_rv_en(ilist_en(n, h));
     if (id == "ilist_rv_re")
-        return IF_ilist_rv_re(ilist_re(n));
+        return IF_ilist_rv_re(ilist_re(n, h));
     return J::obj().set("outcome", "unknown-id");
 }
 
 static J run(const J& c)
 {
     g_bad = 0;
-    J o = dispatch(c["id"].str(), static_cast<int>(c["n"].num()), c["write"].b);
+    int h = 0;
+    if (c.has("handoff"))
+    {
+        const std::string hs = c["handoff"].str();
+        h = hs == "copy" ? 1 : hs == "move" ? 2 : hs == "assign" ? 3 : 0;
+    }
+    J o = dispatch(c["id"].str(), static_cast<int>(c["n"].num()), c["write"].b, h);
     if (!o.has("outcome"))
         o.set("outcome", "ok");
     o.set("bad", J(g_bad));
